@@ -298,7 +298,7 @@ partial def loop (rules : List (Rules.Kind × Regex)) (hin hout : IO.FS.Stream) 
   let line ← hin.getLine
   if line.isEmpty then return ()
   let l := if line.endsWith "\n" then (line.dropEnd 1).toString else line
-  hout.putStrLn (handle rules l)
+  if l == "FLUSH" then hout.flush else hout.putStrLn (handle rules l)
   loop rules hin hout
 
 end Drv
